@@ -206,4 +206,15 @@ VARIANTS = [
          old="SseInterpolator::<T>::new(sinc_len, oversampling_factor, f_cutoff, window)", new="SseInterpolator::<T>::new(sinc_len, oversampling_factor, f_cutoff * 0.99, window)"),
     dict(property="C15", name="avx-pack-width", file=AVX, expect="AVX f64", old="            for elements in sinc.chunks(4) {\n                let packed_elems = _mm256_loadu_pd(&elements[0]);",
          new="            for elements in sinc.chunks(2) {\n                let packed_elems = _mm256_loadu_pd(&elements[0]);"),
+    # ---------------- C09 (MIR, slower)
+    dict(property="C09", name="fft-allocating-process", file=SYN, expect="FftFixedIn_f32_process_into_buffer",
+         old=".process_with_scratch(&mut self.input_buf, &mut self.input_f, &mut self.scratch_fw)", new=".process(&mut self.input_buf, &mut self.input_f)"),
+    dict(property="C09", name="temp-vec-in-process", file=FAST, expect="FastFixedOut_f64_process_into_buffer",
+         old="        let mut idx = self.last_index;\n        let mut t_ratio = 1.0 / self.resample_ratio;\n        let t_ratio_end = 1.0 / self.target_ratio;\n        let t_ratio_increment = (t_ratio_end - t_ratio) / self.chunk_size as f64;",
+         new="        let mut idx = self.last_index;\n        let mut t_ratio = 1.0 / self.resample_ratio;\n        let t_ratio_end = 1.0 / self.target_ratio;\n        let t_ratio_increment = (t_ratio_end - t_ratio) / self.chunk_size as f64;\n        let positions: Vec<f64> = (0..self.chunk_size).map(|k| idx + k as f64).collect();\n        idx = positions[0];"),
+    dict(property="C09", name="reset-reallocates-mask", file=SINC, count=2, expect="_reset",
+         old="        self.channel_mask.iter_mut().for_each(|val| *val = true);\n", new="        self.channel_mask = vec![true; self.nbr_channels];\n"),
+    dict(property="C09", name="setter-boxes-error", file=SYN, expect="FftFixedInOut_f32_set_resample_ratio", count=3,
+         old="    fn set_resample_ratio(&mut self, _new_ratio: f64, _ramp: bool) -> ResampleResult<()> {\n        Err(ResampleError::SyncNotAdjustable)",
+         new="    fn set_resample_ratio(&mut self, _new_ratio: f64, _ramp: bool) -> ResampleResult<()> {\n        let _note = String::from(\"not adjustable\");\n        Err(ResampleError::SyncNotAdjustable)"),
 ]
